@@ -43,18 +43,23 @@ theorem newDesc_cons (n : Node) (k : Key) (it : Item) (h : n.store.get k = some 
 theorem dispatchKeys_kstep (env : Env) : ∀ (ks : List Key) (n : Node), WF n →
     WF (dispatchKeys env ks n).1 ∧ SameEnv n (dispatchKeys env ks n).1 ∧
     (∀ k, k ∉ ks → (dispatchKeys env ks n).1.store.get k = n.store.get k) ∧
-    (dispatchKeys env ks n).1.idk = n.idk
-  | [], n, w => ⟨w, SameEnv.refl n, fun _ _ => rfl, rfl⟩
+    (dispatchKeys env ks n).1.idk = n.idk ∧
+    (∀ k, k ∉ ks → lookupMeta (dispatchKeys env ks n).1.spray k = lookupMeta n.spray k)
+  | [], n, w => ⟨w, SameEnv.refl n, fun _ _ => rfl, rfl, fun _ _ => rfl⟩
   | k₁ :: ks, n, w => by
     simp only [dispatchKeys]
     have hd := dispatching_only env (newDesc n k₁) n w (by intro b h; rw [newDesc_bndl] at h; cases h)
     rw [newDesc_key] at hd
-    rcases dispatchKeys_kstep env ks _ (hd.wf w) with ⟨w', e', o', i'⟩
-    refine ⟨w', hd.only.env.trans e', ?_, i'.trans hd.idk⟩
-    intro k hk
-    have hk1 : k ≠ k₁ := fun e => hk (e ▸ List.mem_cons_self)
-    have hk2 : k ∉ ks := fun e => hk (List.mem_cons_of_mem _ e)
-    rw [o' k hk2, hd.only.other k hk1]
+    rcases dispatchKeys_kstep env ks _ (hd.wf w) with ⟨w', e', o', i', s'⟩
+    refine ⟨w', hd.only.env.trans e', ?_, i'.trans hd.idk, ?_⟩
+    · intro k hk
+      have hk1 : k ≠ k₁ := fun e => hk (e ▸ List.mem_cons_self)
+      have hk2 : k ∉ ks := fun e => hk (List.mem_cons_of_mem _ e)
+      rw [o' k hk2, hd.only.other k hk1]
+    · intro k hk
+      have hk1 : k ≠ k₁ := fun e => hk (e ▸ List.mem_cons_self)
+      have hk2 : k ∉ ks := fun e => hk (List.mem_cons_of_mem _ e)
+      rw [s' k hk2, hd.only.spray k hk1]
 
 theorem dispatchKeys_kept (env : Env) (k : Key) : ∀ (ks : List Key) (n : Node) (it : Item),
     WF n → n.cfg.holdFix = true → n.store.get k = some it → Stable it →
